@@ -64,6 +64,9 @@ def draw_cfg(rng, prop: str, tier: str, overrides=None) -> dict:
     cfg["p_refuse"] = rng.choice([0.0, 0.1, 0.25])
     cfg["p_steer"] = rng.choice([0.0, 0.2, 0.5]) if prop in ("C03", "C13") else rng.choice([0.0, 0.1])
     cfg["p_fault"] = rng.choice([0.0, 0.0, 0.05, 0.1])
+    if prop == "C07":
+        cfg["p_node_src"] = rng.choice([0.22, 0.35])
+        cfg["p_tree_src"] = rng.choice([0.06, 0.15, 0.25])
     w = dict(BASE_WEIGHTS)
     for k, mul in PROFILES.get(prop, {}).items():
         w[k] = w.get(k, 1) * mul
@@ -196,9 +199,11 @@ def gen_add(rng, cfg, w: World, opid: int, invalid: bool, steer: bool):
     # source
     r = rng.random()
     src_kind = "data"
-    if r < 0.22 and (ns or len(live_slots(w)) > 1):
+    p_node = cfg.get("p_node_src", 0.22)
+    p_tree = cfg.get("p_tree_src", 0.06)
+    if r < p_node and (ns or len(live_slots(w)) > 1):
         src_kind = "node"
-    elif r < 0.28 and api == "add" and len(live_slots(w)) > 1:
+    elif r < p_node + p_tree and api == "add" and len(live_slots(w)) > 1:
         src_kind = "tree"
     if steer and P.children:
         # collision steering: re-use a child's data / copy a child's clone
